@@ -373,6 +373,18 @@ func generate(c *drv.Ctx) {
 		}
 		c.Case(M{"kind": "mux", "handlers": hs, "reqs": reqs})
 	}
+	// (vi) twins, exhaustively small: every order of 2-3 patterns that differ only in placeholder names
+	for _, tw := range [][][]string{
+		{{":x"}, {":y"}}, {{"a", ":x"}, {"a", ":y"}}, {{":x", "b"}, {":y", "b"}, {":z", "c"}},
+		{{"v1", ":project", "builds"}, {"v1", ":team", "builds"}}, {{":a", ":b"}, {":c", ":d"}, {":e", "x"}},
+		{{"f", "*w"}, {"f", "*v"}},
+	} {
+		var ps []Pat
+		for _, segs := range tw {
+			ps = append(ps, mkPat(segs, false))
+		}
+		c.Case(descEnum(ps, perms(len(ps)), []string{"/v1/acme/builds", "/a/q", "/q/b", "/q/c", "/f/a/b"}, "ab/x", 3))
+	}
 	// (iii) tables Build must reject: duplicate parameter names
 	for _, segs := range [][]string{{":x", ":x"}, {"a", ":x", "b", ":x"}, {":x", "*x"}} {
 		c.Case(desc([]Pat{mkPat(segs, false), mkPat([]string{"a"}, false)}, perms(2), []string{"/a"}))
@@ -384,6 +396,9 @@ var words = []string{"a", "b", "ab", "ba", "users", "user", "pets", "pet", "v1",
 var names = []string{"id", "name", "x", "y", "z", "k", "petId", "uid"}
 
 func randomTable(c *drv.Ctx, size int) []Pat {
+	// every 4th table may contain "twins": patterns that differ only in placeholder names (Build accepts
+	// them; whichever it serves, every insertion order must serve the same one)
+	twins := c.Rng.Intn(4) == 0
 	seen := map[string]bool{}
 	var out []Pat
 	for tries := 0; len(out) < size && tries < size*20; tries++ {
@@ -417,11 +432,28 @@ func randomTable(c *drv.Ctx, size int) []Pat {
 		}
 		last := segs[len(segs)-1]
 		p := mkPat(segs, !strings.HasPrefix(last, "*") && c.Rng.Intn(6) == 0)
-		if seen[p.Shape()] {
+		id := p.Shape()
+		if twins {
+			id = p.Key()
+		}
+		if seen[id] {
 			continue
 		}
-		seen[p.Shape()] = true
+		seen[id] = true
 		out = append(out, p)
+		if twins && p.HasPlaceholder() && c.Rng.Intn(3) == 0 && len(out) < size {
+			// add a twin: same shape, other placeholder names
+			q := append(Pat{}, p...)
+			for i := range q {
+				if q[i].K != "lit" {
+					q[i].N = q[i].N + "2"
+				}
+			}
+			if !seen[q.Key()] {
+				seen[q.Key()] = true
+				out = append(out, q)
+			}
+		}
 	}
 	sort.Slice(out, func(i, j int) bool { return out[i].Key() < out[j].Key() })
 	return out
@@ -532,13 +564,29 @@ func execute(c *drv.Ctx, d M) bool {
 	}
 	var routers []*denco.Router
 	buildErr := false
-	for _, o := range drv.List(d["orders"]) {
+	orders := drv.List(d["orders"])
+	// the public SizeHint field: besides the default, the first order is also built with explicit hints
+	// below / at / above the number of placeholders
+	hints := []int{-1}
+	for range orders[1:] {
+		hints = append(hints, -1)
+	}
+	if len(orders) > 0 && len(pats) <= 64 {
+		for _, h := range []int{0, 1, 3} {
+			orders = append(orders, orders[0])
+			hints = append(hints, h)
+		}
+	}
+	for oi, o := range orders {
 		var recs []denco.Record
 		for _, i := range drv.List(o) {
 			k := drv.Int(i)
 			recs = append(recs, denco.NewRecord(pats[k].Key(), vals[k]))
 		}
 		r := denco.New()
+		if hints[oi] >= 0 {
+			r.SizeHint = hints[oi]
+		}
 		err := func() (err error) {
 			defer func() {
 				if e := recover(); e != nil {
@@ -570,7 +618,15 @@ func execute(c *drv.Ctx, d M) bool {
 	if pmax := drv.Int(d["pmax"]); pmax > 0 {
 		paths = append(paths, allPaths(trace.Str(d["palpha"]), pmax)...)
 	}
-	for _, path := range paths {
+	// results retained by the caller: the Params a lookup returned must keep their text whatever is looked up later
+	type kept struct {
+		path   string
+		params []denco.Params
+		datas  []interface{}
+		founds []bool
+	}
+	var retained []kept
+	for pi, path := range paths {
 		var os []M
 		for _, r := range routers {
 			o := lookup(r, path)
@@ -580,6 +636,33 @@ func execute(c *drv.Ctx, d M) bool {
 			os = append(os, o.JSON())
 		}
 		c.W.Event("lookup", M{"path": trace.B(path), "obs": os})
+		if pi%7 == 0 && len(retained) < 24 {
+			k := kept{path: path}
+			func() {
+				defer func() { _ = recover() }()
+				for _, r := range routers {
+					data, ps, found := r.Lookup(path)
+					k.params, k.datas, k.founds = append(k.params, ps), append(k.datas, data), append(k.founds, found)
+				}
+				retained = append(retained, k)
+			}()
+		}
+	}
+	for _, k := range retained {
+		var os []M
+		for i := range k.params {
+			o := obs{found: k.founds[i], names: []string{}, texts: []string{}}
+			if o.found {
+				o.value, _ = k.datas[i].(int)
+				for _, p := range k.params[i] {
+					o.names = append(o.names, p.Name)
+					o.texts = append(o.texts, p.Value)
+				}
+			}
+			os = append(os, o.JSON())
+		}
+		// the retained result is validated like a fresh lookup of the same path
+		c.W.Event("lookup", M{"path": trace.B(k.path), "obs": os})
 	}
 	return hasParam && interesting
 }
